@@ -250,6 +250,14 @@ class Check:
                 rec = dict(id=oid, verdict='unsat', how='trivial', s=0.0, desc=desc, path=path.short())
                 self.oblig.append(rec); return 'unsat'
             violation = z3.BoolVal(True)
+        if len(self.violations) >= 12:
+            # twelve natively confirmed violations are already on record: the verdict of this run is VIOLATION whatever the remaining obligations say.
+            # They are still asked, but with a short budget and without the seed portfolio, so that the report arrives in bounded time.
+            r, model, dt = self.solve(conds + [violation], 1500)
+            rec = dict(id=oid, verdict=str(r) if r != z3.unknown else 'not decided (run already has 12 confirmed violations)', s=round(dt, 3), desc=desc, path=path.short(), tag=path.tag)
+            self.oblig.append(rec)
+            if r == z3.sat: self.more_violations = getattr(self, 'more_violations', 0) + 1; rec['not_replayed'] = True
+            return 'unsat' if r == z3.unsat else ('sat' if r == z3.sat else 'unknown')
         r, model, dt = self.solve(conds + [violation], timeout_ms)
         if r == z3.unknown:
             # portfolio: the verdict must not depend on the solver's random seed; retry with other seeds before giving up
